@@ -101,9 +101,9 @@ Definition add_ddict (h : N -> N) (next : N -> N -> N) (s : hset) (e : entry) : 
        end
   else emplace h next s e.
 
-(* the probing loop of ZSTD_DDictHashSet_getDDict: stops on "currDictID == dictID || currDictID == 0".
-   ZSTD_getDictID_fromDDict(NULL) is 0, so an empty slot stops it - and so does a stored DDict whose own
-   dictID is 0 (a raw-content dictionary), whatever dictID is searched. *)
+(* the probing loop of ZSTD_DDictHashSet_getDDict BEFORE fix d50580e: it stopped on "currDictID == dictID || currDictID == 0".
+   ZSTD_getDictID_fromDDict(NULL) is 0, so an empty slot stopped it - and so did a stored DDict whose own
+   dictID is 0 (a raw-content dictionary), whatever dictID was searched.  Kept for the example that shows the difference. *)
 Fixpoint probe_get (next : N -> N) (fuel : nat) (tab : list (option entry)) (id idx : N) : probe_res :=
   match fuel with
   | O => PFuel
@@ -114,9 +114,19 @@ Fixpoint probe_get (next : N -> N) (fuel : nat) (tab : list (option entry)) (id 
            end
   end.
 
-(* ZSTD_DDictHashSet_getDDict (returns the entry of the slot where the loop stopped, or NULL) *)
-Definition get (h : N -> N) (next : N -> N -> N) (s : hset) (id : N) : hres (option entry) :=
+Definition get_old (h : N -> N) (next : N -> N -> N) (s : hset) (id : N) : hres (option entry) :=
   match probe_get (next (hs_size s - 1)) (N.to_nat (hs_size s)) (hs_tab s) id (get_index h (hs_size s) id) with
+  | PFound i => HOk (match tget (hs_tab s) (N.to_nat i) with Some e => e | None => None end)
+  | PEmpty _ => HOk None
+  | POob i => HOobRead i
+  | PFuel => HNoTerm
+  end.
+
+(* ZSTD_DDictHashSet_getDDict as written now (fix d50580e): "if (dictID == 0) return NULL;", then the same probing loop as
+   the insertion ("curr == NULL || dictID(curr) == dictID" stops it); returns the entry of the slot where the loop stopped *)
+Definition get (h : N -> N) (next : N -> N -> N) (s : hset) (id : N) : hres (option entry) :=
+  if id =? 0 then HOk None else
+  match probe (next (hs_size s - 1)) (N.to_nat (hs_size s)) (hs_tab s) id (get_index h (hs_size s) id) with
   | PFound i => HOk (match tget (hs_tab s) (N.to_nat i) with Some e => e | None => None end)
   | PEmpty _ => HOk None
   | POob i => HOobRead i
